@@ -384,7 +384,7 @@ def _main(prop: str, tier: str, seed: int, a: Any) -> int:
 		srcs[prop] = current_sources()
 		json.dump(srcs, open(SOURCES_FILE, 'w'), indent=1, sort_keys=True)
 	print(f'{prop}: {n_ok}/{n_ob} obligations discharged ({by_backend}), {len(rep.functions)} functions under contract, {len(lemmas)} lemmas, '
-		f'{sum(b["cases"] for b in bounded)} bounded-twin cases, {len(closed)} closed obligations, {len(undecided)} undecided, wall {time.time() - t_start:.1f}s')
+		f'{sum(b["cases"] for b in bounded) + sum(x.cases for x in extras if x.kind == 'bounded')} bounded-twin cases, {len(closed)} closed obligations, {len(undecided)} undecided, wall {time.time() - t_start:.1f}s')
 	if a.verbose or undecided:
 		for u in undecided[:40]:
 			print('  undecided:', u[:400])
